@@ -169,8 +169,9 @@ prop('C10',
                 'old header, threshold recorded.  Machine-checked theorems over these contracts (lemmas/vprops_refresh.rs): group key / threshold / header unchanged and left-out participants removed '
                 'from the package; for EVERY participant the dealer-refreshed key package has the same identifier, threshold and group key and verifying share == G*new share == its entry in the '
                 'refreshed public package (conclusions re-establish the premises, so repeated refreshes follow by induction); the same for the distributed variant (entry == G*share by linearity of '
-                'evaluate_vss over the column sums, proved here); refreshed shares lie on old polynomial + refreshing polynomial with the SAME constant term, hence any >= t refreshed packages '
-                'interpolate to the old secret (native Lagrange proof); a threshold change, an unknown participant and a refreshing polynomial with NON-ZERO constant term are rejected with the '
+                'evaluate_vss over the column sums, proved here; equal round-one sets give equal public packages); refreshed shares lie on old polynomial + refreshing polynomial(s) with the SAME '
+                'constant term -- in the distributed variant the accepted shares are forced by the VSS check to be the evaluations of the committed zero-constant polynomials -- hence any >= t '
+                'refreshed packages interpolate to the old secret (native Lagrange proof); a threshold change, an unknown participant and a refreshing polynomial with NON-ZERO constant term are rejected with the '
                 'exact error (a share is accepted against a re-completed commitment iff it equals a(i) - a_0); a signer set mixing old and new shares (or containing a removed participant, who only '
                 'has an old share) interpolates to secret + sum_k lambda_k(0)*err_k and recovers the secret iff that Lagrange-weighted sum of refresh values vanishes.',
      level_note='NOT decided: (1) that the deviation sum_k lambda_k(0)*r(id_k) of a MIXED old/new signer set is non-zero: it is a non-trivial linear form in the t-1 fresh random coefficients of the '
